@@ -3,6 +3,7 @@ package props
 import (
 	"encoding/hex"
 	"fmt"
+	"math/rand/v2"
 	"reflect"
 	"unsafe"
 
@@ -69,8 +70,65 @@ func cellsOf(c *core.Ctx, s *refavro.Schema, t *gen.T) {
 	}
 }
 
+// c13hugeArrays: arrays of 2^20 items and their neighbours (a writer may split long arrays into blocks; every
+// split must still be the Avro encoding of the array), followed by another field.
+type c13Huge struct {
+	A    []int64    `json:"a"`
+	Z    []struct{} `json:"z"`
+	Tail int64      `json:"tail"`
+}
+
+func c13hugeArrays(c *core.Ctx, r *rand.Rand) {
+	text := `{"type":"record","name":"huge","fields":[{"name":"a","type":{"type":"array","items":"long"}},{"name":"z","type":{"type":"array","items":{"type":"record","name":"e","fields":[]}}},{"name":"tail","type":"long"}]}`
+	rs, err1 := refavro.ParseSchema([]byte(text))
+	ls, err2 := avro.SchemaFromString(text)
+	if err1 != nil || err2 != nil {
+		c.Violate("harness", fmt.Sprint(err1, err2), nil)
+		return
+	}
+	codec, err := ls.Codec(c13Huge{})
+	if err != nil {
+		c.Violate("build", "huge arrays: "+err.Error(), nil)
+		return
+	}
+	wb := avro.NewWriteBuf(nil)
+	for _, n := range []int{1<<20 - 1, 1 << 20, 1<<20 + 1, 2 << 20, 3<<20 - 1} {
+		v := c13Huge{A: make([]int64, n), Tail: 77}
+		for k := range v.A {
+			v.A[k] = int64(k & 0x3f)
+		}
+		if n%2 == 0 {
+			v.Z = make([]struct{}, n)
+		}
+		wb.Reset()
+		codec.Write(wb, unsafe.Pointer(&v))
+		c.Eval(1)
+		ds, err := refavro.DecodeAll(rs, wb.Bytes(), 1)
+		if err != nil {
+			c.Violate("invalid-encoding", fmt.Sprintf("an array of %d longs (and %d empty records) followed by a long: the bytes written are not a valid encoding: %v", n, len(v.Z), err), nil)
+			return
+		}
+		rec := ds[0].(*refavro.Record)
+		if a, ok := rec.Fields[0].([]any); !ok || len(a) != n || rec.Fields[2] != int64(77) || len(rec.Fields[1].([]any)) != len(v.Z) || a[n-1] != int64((n-1)&0x3f) {
+			c.Violate("wrong-datum", fmt.Sprintf("an array of %d longs followed by the long 77 reads back (reference reader) with %d items and tail %v", n, len(rec.Fields[0].([]any)), rec.Fields[2]), nil)
+			return
+		}
+		var back c13Huge
+		rb := avro.NewReadBuf(wb.Bytes())
+		if err := codec.Read(rb, unsafe.Pointer(&back)); err != nil || len(back.A) != n || back.Tail != 77 || len(back.Z) != len(v.Z) || back.A[n-1] != v.A[n-1] {
+			c.Violate("not-inverse", fmt.Sprintf("an array of %d longs: Read of the bytes written gives %d items, tail %d, err=%v", n, len(back.A), back.Tail, err), nil)
+			return
+		}
+		rb.ExtractResourceBank().Close()
+		c.Count("huge-arrays", 1)
+	}
+}
+
 func runC13(c *core.Ctx, i int) {
 	r := c.Rand(i, 0)
+	if i%2000 == 11 {
+		c13hugeArrays(c, r)
+	}
 	ds := gen.GenDataSchema(r, gen.DataOpts{CallerMode: true, MaxDepth: 1 + r.IntN(3)})
 	if i%8 == 5 {
 		ds = gen.GenFixedWidthSchema(r) // records of float/double/fixed only
